@@ -33,10 +33,19 @@ case "$CMD" in
   run)
     PATCH="$3"; ID="$4"; TIER="${5:-quick}"; BASE="${6:-}"
     cd "$S/repo" && git checkout -- . || exit 3
-    if ! git apply --check "$PATCH" 2>/dev/null && [ -n "$BASE" ]; then
-      for f in $(grep '^+++ b/' "$PATCH" | cut -c7-); do git checkout "$BASE" -- "$f"; done
+    # the patch as it is; else merged onto the current tree (the files it touches moved on since it was written:
+    # later fix: commits); else, as a last resort, the touched files as they were at the seed's base
+    if git apply --check "$PATCH" 2>/dev/null; then
+      git apply "$PATCH"
+    elif git apply --3way "$PATCH" >/dev/null 2>&1; then
+      git reset -q
+    else
+      git checkout HEAD -- . ; git reset -q
+      if [ -n "$BASE" ]; then
+        for f in $(grep '^+++ b/' "$PATCH" | cut -c7-); do git checkout "$BASE" -- "$f" 2>/dev/null; done
+      fi
+      git apply "$PATCH" || { echo "patch does not apply"; git checkout HEAD -- . ; git reset -q; exit 3; }
     fi
-    git apply "$PATCH" || { echo "patch does not apply"; git checkout HEAD -- . ; git reset -q; exit 3; }
     "$S/verif/check" "$ID" "$TIER" > "$S/out.txt" 2>&1; RC=$?
     git checkout HEAD -- . ; git reset -q
     grep -E "^(VIOLATION|KNOWN-FINDING|MACHINERY|property=)" "$S/out.txt" | cut -c1-300 | head -n 40
